@@ -22,10 +22,14 @@ Local Open Scope list_scope.
 Record sfield := { sf_ty : qty; sf_skip : bool }.
 Inductive payload := PVar (n : str) | PUnit | PStr | PInt | PBool | PStruct (n : str) | POther.
 Record emit_site := { em_name : str; em_recv : str; em_payload : payload }.
+(* statements of a function body, as far as event_parser.rs distinguishes them: let bindings
+   (untyped with an initialiser, or typed) and emit calls *)
+Inductive init := IStruct (n : str) | ICall (head : str) | IVar (w : str) | IRef (i : init) | IOther.
+Inductive stmt := SLet (v : str) (i : init) | SLetTy (v : str) (t : qty) | SEmit (e : emit_site).
 Inductive ritem :=
 | RStruct (name : str) (serde named : bool) (fields : list sfield)     (* named = false: tuple struct *)
 | REnum (name : str) (serde : bool)
-| RFn (name : str) (is_cmd : bool) (params : list (str * qty)) (ret : option qty) (emits : list emit_site)
+| RFn (name : str) (is_cmd : bool) (params : list (str * qty)) (ret : option qty) (body : list stmt)
 | ROther.
 Record proj := { pj_items : list ritem; pj_maps : list (str * str) }.
 
@@ -72,18 +76,41 @@ Definition fname (c : cmd) : str := camel (c_name c).
 (* events: every top-level fn of every file; payload type string as event_parser.rs infers it *)
 Fixpoint type_name (t : qty) : str :=
   match t with QRef u => type_name u | QPath _ n _ _ => n | QTuple _ => S_ "unknown" end.
-Fixpoint sym_lookup (k : str) (ps : list (str * qty)) (acc : option str) : option str :=   (* later parameters win *)
-  match ps with [] => acc | (n, t) :: r => sym_lookup k r (if str_eqb k n then Some (type_name t) else acc) end.
-Definition payload_str (ps : list (str * qty)) (pl : payload) : str :=
-  match pl with
-  | PVar n => match sym_lookup n ps None with Some t => t | None => n end
-  | PUnit => S_ "()" | PStr => S_ "String" | PInt => S_ "i32" | PBool => S_ "bool"
-  | PStruct n => n | POther => S_ "unknown" end.
+(* the function-wide symbol table of event_parser.rs, with the provenance of every entry: the
+   declared type of a parameter / typed let (only its last path segment is kept as the type string),
+   or a name taken from an initialiser (struct literal, first segment of a path call) *)
+Inductive prov := FromTy (t : qty) | FromName (n : str).
+Definition prov_str (pr : prov) : str := match pr with FromTy t => type_name t | FromName n => n end.
+Definition symtab := list (str * prov).
+Fixpoint sy_lookup (k : str) (sy : symtab) : option prov :=
+  match sy with [] => None | (n, pr) :: r => if str_eqb k n then Some pr else sy_lookup k r end.
+Fixpoint infer_init (i : init) (sy : symtab) : option prov :=           (* infer_type_from_init *)
+  match i with
+  | IStruct n => Some (FromName n) | ICall h => Some (FromName h)
+  | IVar w => sy_lookup w sy | IRef j => infer_init j sy | IOther => None end.
+Record emit_rec := { er_name : str; er_str : str; er_prov : option prov; er_pl : payload }.
+Definition emit_record (sy : symtab) (e : emit_site) : emit_rec :=
+  let mk s pr := {| er_name := em_name e; er_str := s; er_prov := pr; er_pl := em_payload e |} in
+  match em_payload e with
+  | PVar n => match sy_lookup n sy with Some pr => mk (prov_str pr) (Some pr) | None => mk n None end   (* falls back to the NAME *)
+  | PUnit => mk (S_ "()") None | PStr => mk (S_ "String") None | PInt => mk (S_ "i32") None | PBool => mk (S_ "bool") None
+  | PStruct n => mk n (Some (FromName n)) | POther => mk (S_ "unknown") None end.
 Definition recv_ok (r : str) : bool := mem r [S_ "app"; S_ "window"; S_ "webview"].
-Definition events (p : proj) : list (str * str) :=
-  flat_map (fun it => match it with
-    | RFn _ _ ps _ es => flat_map (fun e => if recv_ok (em_recv e) then [(em_name e, payload_str ps (em_payload e))] else []) es
-    | _ => [] end) (pj_items p).
+(* extract_local_binding runs before the statement is searched for emits; an initialiser that
+   cannot be typed leaves the table as it is *)
+Fixpoint walk (sy : symtab) (b : list stmt) : list emit_rec :=
+  match b with
+  | [] => []
+  | SLet v i :: r => walk (match infer_init i sy with
+                           | Some pr => if str_eqb (prov_str pr) (S_ "unknown") then sy else (v, pr) :: sy
+                           | None => sy end) r
+  | SLetTy v t :: r => walk ((v, FromTy t) :: sy) r
+  | SEmit e :: r => (if recv_ok (em_recv e) then [emit_record sy e] else []) ++ walk sy r
+  end.
+Definition param_sy (ps : list (str * qty)) : symtab := fold_left (fun sy x => (fst x, FromTy (snd x)) :: sy) ps [].
+Definition emit_recs (p : proj) : list emit_rec :=
+  flat_map (fun it => match it with RFn _ _ ps _ b => walk (param_sy ps) b | _ => [] end) (pj_items p).
+Definition events (p : proj) : list (str * str) := map (fun r => (er_name r, er_str r)) (emit_recs p).
 
 (* generators/mod.rs create_event_contexts: one listener per distinct event name, first site wins *)
 Fixpoint first_by_name (seen : list str) (l : list (str * str)) : list (str * str) :=
@@ -325,16 +352,12 @@ Fixpoint qnames (t : qty) : list str :=
   | QTuple l => flat_map qnames l end.
 Definition serde_fields (p : proj) : list sfield :=
   flat_map (fun it => match it with RStruct _ true true fs => filter (fun f => negb (sf_skip f)) fs | _ => [] end) (pj_items p).
-Definition payload_qty (ps : list (str * qty)) (pl : payload) : list qty :=
-  match pl with PVar n => flat_map (fun x => if str_eqb (fst x) n then [snd x] else []) ps | _ => [] end.
-Definition emits_of (p : proj) : list (list (str * qty) * emit_site) :=
-  flat_map (fun it => match it with RFn _ _ ps _ es => map (fun e => (ps, e)) (filter (fun e => recv_ok (em_recv e)) es) | _ => [] end) (pj_items p).
 Definition site_qtys (p : proj) : list qty :=
   flat_map (fun c => map snd (vparams c) ++ map snd (chans c) ++ match c_ret c with Some t => [t] | None => [] end) (cmds p) ++
   map sf_ty (serde_fields p) ++
-  flat_map (fun x => payload_qty (fst x) (em_payload (snd x))) (emits_of p).
+  flat_map (fun r => match er_prov r with Some (FromTy t) => [t] | _ => [] end) (emit_recs p).
 Definition payload_names (p : proj) : list str :=
-  flat_map (fun x => match em_payload (snd x) with PStruct n => [n] | _ => [] end) (emits_of p).
+  flat_map (fun r => match er_prov r with Some (FromName n) => [n] | _ => [] end) (emit_recs p).
 (* the premise of the property: every named Rust type used is a serde struct/enum of the proj or mapped *)
 Definition closed_world (p : proj) : bool :=
   forallb (fun n => has_info p n || mapped (pj_maps p) n) (flat_map qnames (site_qtys p) ++ payload_names p).
@@ -343,12 +366,13 @@ Definition type_names (p : proj) : list str :=
   flat_map (fun it => match it with RStruct n _ _ _ | REnum n _ => [n] | _ => [] end) (pj_items p).
 (* well-formed input: one definition per type name, one command per name, mapping targets are
    the primitive names of the documented feature set, event names mangle to identifiers,
-   a payload variable is a parameter *)
+   a payload variable has a type in the symbol table when it is emitted (parameter, typed let,
+   struct-literal or path-call initialiser; an initialiser that cannot be typed keeps the earlier entry) *)
 Definition wf (p : proj) : bool :=
   negb (has_dup (type_names p)) && negb (has_dup (map c_name (cmds p))) &&
   forallb (fun m => mem (snd m) prims4) (pj_maps p) &&
   forallb (fun e => is_ts_identifier (lname (fst e))) (events p) &&
-  forallb (fun x => match em_payload (snd x) with PVar n => mem n (map fst (fst x)) | POther => false | _ => true end) (emits_of p).
+  forallb (fun r => match er_pl r with PVar _ => match er_prov r with Some _ => true | None => false end | POther => false | _ => true end) (emit_recs p).
 
 (* ---------------- recorded defect classes ---------------- *)
 (* (repaired, kept as a diagnostic only) a leaf that is not a name *)
@@ -358,7 +382,7 @@ Definition kf_prefix (p : proj) : bool := existsb (fun t => negb (atp_clean (pj_
 (* C02-6 the payload variable's declared type has type arguments: only its head name is kept *)
 Fixpoint generic_head (t : qty) : bool := match t with QRef u => generic_head u | QPath _ _ angle _ => angle | QTuple _ => false end.
 Definition kf_event_head (p : proj) : bool :=
-  existsb (fun x => existsb generic_head (payload_qty (fst x) (em_payload (snd x)))) (emits_of p).
+  existsb (fun r => match er_prov r with Some (FromTy t) => generic_head t | _ => false end) (emit_recs p).
 (* C02-7 two distinct event names mangle to one listener identifier (a-b beside a_b) *)
 Definition kf_dup_listener (p : proj) : bool := has_dup (map (fun e => lname (fst e)) (levents p)).
 (* C02-8 generated names collide inside types.ts / commands.ts *)
